@@ -678,13 +678,16 @@ def check_sweep(case, R):
     topo = (np.arange(N, dtype=np.int32), np.array(p, dtype=np.int32))
     tag = f":sweep:{kind}" + (":lowered-recursion-limit" if extra else "")
     desc = f"table shape {kind} with {N} nodes (ids = positions)" + (f", recursion limit lowered to {extra} frames above the harness" if extra else "")
+    # step horizon: all four diagnoses are (near-)linear in N; a loop that never ends (e.g. a traversal caught in a cycle)
+    # must be reported as a hang, not left to the wall-clock watchdog of every single case
+    H = 20000 + 600 * N
     if extra:
         # numpy-only checkers under a lowered recursion limit (pandas itself needs a deeper stack)
         with kernel.recursion_limit(extra):
-            run_checkers(R, p, "ident", list(range(N)), topo, None, None, tag=tag, which=("cyc", "sorted", "bif"), desc=desc)
+            run_checkers(R, p, "ident", list(range(N)), topo, None, H, tag=tag, which=("cyc", "sorted", "bif"), desc=desc)
     else:
         df = pd.DataFrame({"id": np.arange(N, dtype=np.int64), "pid": np.array(p, dtype=np.int64)})
-        run_checkers(R, p, "ident", list(range(N)), topo, df, None, tag=tag, desc=desc)
+        run_checkers(R, p, "ident", list(range(N)), topo, df, H, tag=tag, desc=desc)
 
 
 # =============================================================================== (c) forests and repair
